@@ -680,7 +680,12 @@ def tri(v):
 
 
 def impl_table(t):
-    return [[bool(x) for x in row] for row in t]
+    # RawTruthTable is any Sequence[Sequence[bool]]: tables with an odd number of ones are handed over
+    # with tuple rows (deterministic, so replays reproduce), the others with list rows
+    rows = [[bool(x) for x in row] for row in t]
+    if sum(sum(r) for r in rows) % 2 == 1:
+        return [tuple(r) for r in rows]
+    return rows
 
 
 def impl_model_table(tm):
